@@ -486,6 +486,25 @@ Skeleton(o, d) ==
                                                  \o Blk("/cordons/cordon", 2, "box", KVs("/cordons/cordon/box", 3, <<"mins", "maxs">>))))))
     \o (IF d.set.quickhide > 0 THEN Blk("", 0, "quickhide", Tk("kv", "/quickhide/count", 1)) ELSE <<>>)
 
+\* Object census: of both streams only the tokens that stand for objects of the map are kept - the opening of
+\* world / entity / solid / side / dispinfo / group / visgroup / camera / cordon blocks and the output lines - and
+\* the two sequences of labels must agree.
+RECURSIVE VisLabels(_, _)
+VisLabels(p, n) == IF n = 0 THEN {} ELSE {p \o "/visgroup"} \cup VisLabels(p \o "/visgroup", n - 1)
+ObjLabels == {"/world", "/entity", "/world/solid", "/entity/solid", "/world/solid/side", "/entity/solid/side",
+              "/world/solid/side/dispinfo", "/entity/solid/side/dispinfo", "/world/group", "/cameras/camera",
+              "/cordons/cordon", "/world/connections/<output>", "/entity/connections/<output>"}
+             \cup VisLabels("/visgroups", 8)
+Census(s) == MapSeq(LAMBDA t : t.c, SelectSeq(s, LAMBDA t : t.t # "close" /\ t.c \in ObjLabels))
+CensusClauses(exp, got) ==
+    LET x == Census(exp)
+        y == Census(got)
+        i == FirstDiff(x, y)
+    IN  IF x = y THEN {}
+        ELSE {"census:" \o (IF i <= Len(x) THEN x[i] ELSE "<end>") \o "|" \o (IF i <= Len(y) THEN y[i] ELSE "<end>")}
+
+\* (SkelClauses - the full token-by-token comparison - is kept for reference only: it prescribes key names, key
+\* order and which defaults are written, which the property does not, and is not used as a clause.)
 \* The two streams are compared top-level block by top-level block (so that one defective block does not hide
 \* the others); per block the clause names the first expected/observed pair of labels that differ.
 TopStarts(s) == SelectSeq([j \in 1..Len(s) |-> j], LAMBDA j : s[j].d = 0 /\ s[j].t = "open")
